@@ -56,6 +56,24 @@ def run_unit(name, factory, canaries=True, rlimit=30):
         return out
     res = U.run_verus(g, rlimit=rlimit)
     cl = U.classify(g, res)
+    tried = set(f['id'] for f in g.functions if f.get('tried_body'))
+    if tried:
+        # changed functions that used to be outside the subset were given to the verifier with their bodies; those
+        # the front end still rejects go back to external_body (bounded stand-in only), the others stay verified
+        rejected = set(i['fn'] for i in cl['infra'] if i.get('fn') in tried)
+        if res['json'] is None and not rejected:
+            rejected = set(tried)
+        if rejected:
+            X.FORCE_EXTERNAL.update(rejected)
+            try:
+                g = U.build(factory())
+            except X.InfraError as e:
+                out['infra'].append('extraction: %s' % e)
+                return out
+            res = U.run_verus(g, rlimit=rlimit)
+            cl = U.classify(g, res)
+        out['tried_body'] = sorted(tried - rejected)
+        out['tried_body_rejected'] = sorted(rejected)
     out.update({'g': g, 'res': res, 'cl': cl})
     if res['json'] is None or res['vir_error'] or cl['infra']:
         for i in cl['infra']:
@@ -143,9 +161,19 @@ def obligations_for(prop, ur):
     for c in cl['failed_clauses']:
         if c.get('inherited') and c.get('fn') not in registered_inheriting:
             ps = set(c.get('iprops') or []) | set(fprops.get(c.get('fn'), []))
-            if prop in ps or (not ps and prop == 'C13'):
+            if prop in ps:
                 obs.append({'id': c['id'], 'kind': 'postcondition(inherited)', 'fn': c.get('fn'), 'status': 'failed',
                             'text': 'trait contract %s in an implementation' % (c.get('trait_clause') or ''), 'diag': c})
+            elif not ps:
+                # e.g. a proof obligation of a spec-level trait member (lemma) of an implementation: no property
+                # claims it by name, every property of the unit rests on it -> undecided, never silent
+                obs.append({'id': c['id'], 'kind': 'proof-internal', 'fn': c.get('fn'), 'status': 'undecided',
+                            'text': 'trait-level proof obligation of an implementation failed', 'diag': c})
+    mark_props = dict((m['id'], (m['props'], m.get('iprops') or [])) for m in g.marks)
+    for c in cl['failed_clauses']:
+        if not c.get('inherited') and c['id'] in mark_props and not mark_props[c['id']][0] and not mark_props[c['id']][1]:
+            obs.append({'id': c['id'], 'kind': 'proof-internal', 'fn': c.get('fn'), 'status': 'undecided',
+                        'text': 'a contract clause that no property claims failed', 'diag': c})
     # a verifier error in a function no property claims (e.g. a function the change added): never silently dropped
     lemma_names = set(l.name for l in g.unit.lemmas)
     for key in ('failed_safety', 'internal'):
